@@ -59,9 +59,9 @@ def run(ctx):
     inputs = inputs_of(beh.behaviours)
     rnd = random.Random(ctx.seed)
     rnd.shuffle(inputs)
-    take = inputs[: (40000 if th else 4000)]
+    take = inputs[: (12000 if th else 1500)]
     res, out, rc = ctx.go_test("internal/aggregator", "TestVerifC03", inp=take,
-                               env={"VERIF_NRANDOM": 6000 if th else 500,
+                               env={"VERIF_NRANDOM": 3000 if th else 400,
                                     "VERIF_BIGUNIQ": "3000,40000,65535,65536,65537,100000,140000" if th else "3000"},
                                timeout=2400)
     res = ctx.need_result(res, out, rc, "TestVerifC03")
@@ -113,6 +113,8 @@ def run(ctx):
     ctx.ev.assume("contributions are merged by a copy of the item loop of handleSendSourceBucket (the handler needs a "
                   "live RPC context); no string tag is known to the mapping cache; metrics have no meta "
                   "(no SkipMinHost / SkipMaxHost / SkipSumSquare)")
+    ctx.ev.assume("at most 60 units of centroid weight per row, so that the real t-digest (compression 80, decoded "
+                  "at 256) never merges distinct centroids; centroids are compared as bags value -> weight")
     ctx.ev.assume("integer aggregates and centroid weights (exact in float64 / float32); distinct values of a unique "
                   "row are counted by their 32-bit hashes; the skewed value of a host argument is not compared")
 
